@@ -7,6 +7,7 @@
 -/
 import RaftWal.Generated.Conc
 import RaftWal.Proofs.ConcProps
+import RaftWal.Proofs.ConcWProps
 namespace RaftWal.C14
 open RaftWal RaftWal.Conc
 
@@ -41,5 +42,59 @@ theorem close_releases_all (files wants : List FileId) (muts : List Mutation) (h
     (hr : ∀ r ∈ s.readers, ∃ res, r.pc = .done res) (hclosed : s.closed = true) :
     (∀ sid, sid < s.objs.length → ∀ f ∈ (s.obj sid).files, s.isOpen f = false) ∧ s.doubleClose = false :=
   ⟨Conc.close_releases_all files wants muts hwf s h hc hw hr hclosed, Conc.no_double_close files wants muts hwf s h⟩
+
+/-! ## the write path: StoreLogs / DeleteRange against Close and the background rotation (Model/ConcW.lean).
+    The three guards of the code are the model's configuration, read from wal.go on every run. -/
+
+/-- the model configuration is the one read from the source -/
+theorem cfgW_from_source :
+    ({ recheckAfterAwait := Generated.writersRecheckClosedUnderLock, closeWakes := Generated.closeWakesRotationWaiter,
+       rotatorRechecks := Generated.rotationRechecksClosed } : ConcW.Cfg) = ConcW.fixed := by decide
+
+/-- **no write call and no rotation panics** under any schedule of any number of write calls, the rotation goroutine and
+    Close — with appends issued one at a time (hashicorp/raft's single appender; DeleteRange and Close at any time) -/
+theorem write_path_no_panic (seals : List Bool) (s : ConcW.Sys) (h : ConcW.Reachable1 seals s) :
+    s.bad = false ∧ ∀ w ∈ s.writers, w.pc ≠ .done .panic :=
+  ConcW.no_runtime_panic_corrected seals s h
+
+/-- writers themselves never panic under ANY schedule, also with concurrent appenders -/
+theorem writers_never_panic (seals : List Bool) (s : ConcW.Sys) (h : ConcW.Reachable seals s) :
+    ∀ w ∈ s.writers, w.pc ≠ .done .panic :=
+  ConcW.no_runtime_panic_writers seals s h
+
+/-- **every write call returns a result or ErrClosed** (any schedule) -/
+theorem write_results (seals : List Bool) (s : ConcW.Sys) (h : ConcW.Reachable seals s) (w : ConcW.Writer)
+    (hw : w ∈ s.writers) (r : ConcW.WRes) (hr : w.pc = .done r) : r = .ok ∨ r = .errClosed :=
+  ConcW.results seals s h w hw r hr
+
+/-- **no write uses the state once Close has returned**, and **nothing runs after Close**: no rotation (meta commit,
+    file creation) is performed after Close returned (any schedule) -/
+theorem nothing_after_close (seals : List Bool) (s : ConcW.Sys) (h : ConcW.Reachable seals s) :
+    s.ioAfterClose = false ∧ (s.cpc = .done → ∀ w ∈ s.writers, w.pc ≠ .use) :=
+  ⟨ConcW.no_io_after_close seals s h, ConcW.no_use_after_close seals s h⟩
+
+/-- **no deadlock**: while a write call has not returned or Close is under way, some thread can move (single appender) -/
+theorem write_path_no_deadlock (seals : List Bool) (s : ConcW.Sys) (h : ConcW.Reachable1 seals s)
+    (hp : (∃ w ∈ s.writers, ∀ r, w.pc ≠ .done r) ∨ s.cpc = .flagged ∨ s.cpc = .locked) :
+    ∃ t, ConcW.step1 ConcW.fixed s t ≠ s :=
+  ConcW.no_deadlock_corrected seals s h hp
+
+/-- the write lock is held by at most one thread (any schedule) -/
+theorem write_lock_exclusive (seals : List Bool) (s : ConcW.Sys) (h : ConcW.Reachable seals s) :
+    ConcW.holders s = (if s.lock then 1 else 0) :=
+  ConcW.mutual_exclusion seals s h
+
+/-- each guard is needed: switching one off yields a panic or a deadlock (the seeded changes C14, C14-2 and the pinned
+    tree's O8 are exactly these) -/
+theorem guards_needed :
+    (∃ seals sched, (ConcW.run { ConcW.fixed with recheckAfterAwait := false } (ConcW.init seals) sched).bad = true) ∧
+    (∃ seals sched, (ConcW.run { ConcW.fixed with rotatorRechecks := false } (ConcW.init seals) sched).bad = true) :=
+  ⟨ConcW.panic_without_recheck, ConcW.panic_without_rotator_recheck⟩
+
+/-- OBSERVATION (not covered by the single-writer discipline the properties assume): with three or more CONCURRENT
+    filling appends the single `if` in awaitRotationLocked lets a woken writer overwrite a pending rotation channel —
+    the unrestricted statements are false, with concrete schedules -/
+theorem concurrent_appenders_can_break : ¬ ConcW.no_runtime_panic_stmt ∧ ¬ ConcW.no_deadlock_stmt :=
+  ⟨ConcW.no_runtime_panic_refuted, ConcW.no_deadlock_refuted⟩
 
 end RaftWal.C14
